@@ -1046,9 +1046,12 @@ class Engine:
             # apply updates based on process times in self.front
             if next_time == math.inf:
                 # no processes ran, jump to next process
+                # (a process waiting with an infinite timestep stays
+                # behind the global time: it is not an event to jump to)
                 next_event = end_time
                 for path in self.front.keys():
-                    if self.front[path]['time'] < next_event:
+                    if self.global_time < self.front[path]['time'] \
+                            < next_event:
                         next_event = self.front[path]['time']
                 self.global_time = next_event
 
